@@ -162,49 +162,49 @@ func (h *tracerHandler) Handle(ctx *ptracer.Context) ptracer.TraceAction {
 	case "open":
 		action = h.checkOpen(ctx, ctx.Arg0(), ctx.Arg1())
 	case "openat":
-		action = h.checkOpenAt(ctx, int(int64(ctx.Arg0())), ctx.Arg1(), ctx.Arg2())
+		action = h.checkOpenAt(ctx, int(int32(ctx.Arg0())), ctx.Arg1(), ctx.Arg2())
 	case "openat2":
-		action = h.checkOpenAt2(ctx, int(int64(ctx.Arg0())), ctx.Arg1(), ctx.Arg2())
+		action = h.checkOpenAt2(ctx, int(int32(ctx.Arg0())), ctx.Arg1(), ctx.Arg2())
 
 	case "readlink":
 		action = h.checkRead(ctx, ctx.Arg0())
 	case "readlinkat":
-		action = h.checkReadAt(ctx, int(int64(ctx.Arg0())), ctx.Arg1())
+		action = h.checkReadAt(ctx, int(int32(ctx.Arg0())), ctx.Arg1())
 
 	case "unlink":
 		action = h.checkWrite(ctx, ctx.Arg0())
 	case "unlinkat":
-		action = h.checkWriteAt(ctx, int(int64(ctx.Arg0())), ctx.Arg1())
+		action = h.checkWriteAt(ctx, int(int32(ctx.Arg0())), ctx.Arg1())
 
 	case "mkdirat", "mknodat", "symlinkat", "fchmodat", "fchmodat2":
-		action = h.checkWriteAt(ctx, int(int64(ctx.Arg0())), ctx.Arg1())
+		action = h.checkWriteAt(ctx, int(int32(ctx.Arg0())), ctx.Arg1())
 	case "linkat":
 		action = combineTraceActions(
-			h.checkWriteAt(ctx, int(int64(ctx.Arg0())), ctx.Arg1()),
-			h.checkWriteAt(ctx, int(int64(ctx.Arg2())), ctx.Arg3()),
+			h.checkWriteAt(ctx, int(int32(ctx.Arg0())), ctx.Arg1()),
+			h.checkWriteAt(ctx, int(int32(ctx.Arg2())), ctx.Arg3()),
 		)
 	case "renameat", "renameat2":
 		action = combineTraceActions(
-			h.checkWriteAt(ctx, int(int64(ctx.Arg0())), ctx.Arg1()),
-			h.checkWriteAt(ctx, int(int64(ctx.Arg2())), ctx.Arg3()),
+			h.checkWriteAt(ctx, int(int32(ctx.Arg0())), ctx.Arg1()),
+			h.checkWriteAt(ctx, int(int32(ctx.Arg2())), ctx.Arg3()),
 		)
 
 	case "access":
 		action = h.checkStat(ctx, ctx.Arg0())
 	case "faccessat", "faccessat2":
-		action = h.checkStatAt(ctx, int(int64(ctx.Arg0())), ctx.Arg1())
+		action = h.checkStatAt(ctx, int(int32(ctx.Arg0())), ctx.Arg1())
 
 	case "stat", "stat64":
 		action = h.checkStat(ctx, ctx.Arg0())
 	case "lstat", "lstat64":
 		action = h.checkStat(ctx, ctx.Arg0())
 	case "statx", "fstatat", "fstatat64", "newfstatat":
-		action = h.checkStatAt(ctx, int(int64(ctx.Arg0())), ctx.Arg1())
+		action = h.checkStatAt(ctx, int(int32(ctx.Arg0())), ctx.Arg1())
 
 	case "execve":
 		action = h.checkRead(ctx, ctx.Arg0())
 	case "execveat":
-		action = h.checkReadAt(ctx, int(int64(ctx.Arg0())), ctx.Arg1())
+		action = h.checkReadAt(ctx, int(int32(ctx.Arg0())), ctx.Arg1())
 
 	case "chmod":
 		action = h.checkWrite(ctx, ctx.Arg0())
